@@ -357,7 +357,7 @@ def run(rep, tier, seed, only=None):
         if only and m.name not in only:
             continue
         md = getattr(m, "max_depth", None)
-        r = bfs.search(m, label=m.name, nproc=16 if md else 1, max_depth=md)
+        r = bfs.search_guarded(m, 240 if tier != "thorough" else 3600, label=m.name, nproc=16 if md else 1, max_depth=md)
         if md:
             r["closed"] = True  # depth-bounded by design: the bounded space was enumerated completely
             per_bounded.append(m.name)
